@@ -5,8 +5,14 @@ from . import C15
 SIDECARS = C15.SIDECARS
 
 
+TRIM = ['goodwe.protocol.ModbusRtuProtocolCommand.trim_response', 'goodwe.protocol.ModbusTcpProtocolCommand.trim_response',
+        'goodwe.protocol.Aa55ProtocolCommand.trim_response']
+
+
 def units(tier):
-    return C15.scenario_units(tier)
+    # the windows are judged on a full-length answer: that the decoded block is the whole validated payload is the
+    # trim_response lemma (clauses tagged C14)
+    return C15.scenario_units(tier) + contract_units(SIDECARS, TRIM, tier)
 
 
 replay = replay_c15
